@@ -59,3 +59,72 @@ Proof.
   split; [reflexivity|].
   intros q Hq. rewrite !fs_get_set_other by congruence. reflexivity.
 Qed.
+
+(* ---- output files of the Rust generator: no interface is lost ---- *)
+
+Lemma mem_str_In' k l : mem_str k l = true <-> In k l.
+Proof.
+  induction l as [|x l IH]; cbn; [split; [discriminate | tauto]|].
+  rewrite orb_true_iff, IH, String.eqb_eq. split; intros [H|H]; auto.
+Qed.
+
+Lemma nodup_str_NoDup' l : nodup_str l = true -> NoDup l.
+Proof.
+  induction l as [|x l IH]; cbn; [constructor|].
+  intro H. apply andb_prop in H. destruct H as [H1 H2]. constructor; [|now apply IH].
+  intro Hin. apply mem_str_In' in Hin. rewrite Hin in H1. discriminate.
+Qed.
+
+Definition rust_base (stem : string) : string := (lower stem ++ ".rs")%string.
+Definition rust_base_used (stem : string) (mir : list mtop) : bool :=
+  has_file_level_content mir || existsb (String.eqb (rust_base stem)) (rust_iface_files mir).
+
+Lemma rust_names_unfold stem mir :
+  rust_names stem mir =
+  (if rust_base_used stem mir then [rust_base stem] else []) ++ nodup string_dec (rust_others stem mir).
+Proof. reflexivity. Qed.
+
+(* with the repaired generator an accepted run writes one file per interface, all distinct:
+   the file of every interface is there, and their number is the number of interfaces that
+   are not the file-level module, plus that module when it has content *)
+Theorem rust_generate_complete stem mir l :
+  rust_generate_gen true stem mir = Some l ->
+  (forall i, In (MTIface i) mir -> In ((lower (mi_name i) ++ ".rs")%string) l) /\
+  NoDup l /\
+  List.length l = ((if rust_base_used stem mir then 1 else 0) + List.length (rust_others stem mir))%nat.
+Proof.
+  unfold rust_generate_gen. cbn [andb].
+  destruct (nodup_str (rust_others stem mir)) eqn:EN; cbn [negb]; [|discriminate].
+  intro H. inversion H; subst l. clear H. apply nodup_str_NoDup' in EN.
+  rewrite rust_names_unfold, (nodup_fixed_point string_dec EN).
+  split; [|split].
+  - intros i Hi.
+    assert (Hf : In ((lower (mi_name i) ++ ".rs")%string) (rust_iface_files mir)).
+    { unfold rust_iface_files. apply in_flat_map. exists (MTIface i). split; [exact Hi | now left]. }
+    destruct (String.eqb ((lower (mi_name i) ++ ".rs")%string) (rust_base stem)) eqn:EB.
+    + apply String.eqb_eq in EB. apply in_or_app. left.
+      assert (U : rust_base_used stem mir = true).
+      { unfold rust_base_used. apply orb_true_iff. right. apply existsb_exists.
+        exists ((lower (mi_name i) ++ ".rs")%string). split; [exact Hf | rewrite EB; apply String.eqb_refl]. }
+      rewrite U, EB. now left.
+    + apply in_or_app. right. unfold rust_others. apply filter_In. split; [exact Hf|].
+      fold (rust_base stem). now rewrite EB.
+  - assert (NB : ~ In (rust_base stem) (rust_others stem mir)).
+    { unfold rust_others. intro Hin. apply filter_In in Hin. destruct Hin as [_ Hn].
+      fold (rust_base stem) in Hn. rewrite String.eqb_refl in Hn. discriminate. }
+    destruct (rust_base_used stem mir); cbn [app]; [constructor; assumption | exact EN].
+  - rewrite app_length. destruct (rust_base_used stem mir); reflexivity.
+Qed.
+
+(* the pinned upstream generator replaced the earlier interface silently (F17) *)
+Theorem rust_generate_loses_interface_upstream :
+  let mir := [MTIface (MI "Foo" None []); MTIface (MI "FOO" None [])] in
+  rust_generate_gen false "coll" mir = Some ["foo.rs"] /\ rust_generate_gen true "coll" mir = None.
+Proof. split; vm_compute; reflexivity. Qed.
+
+(* what is rejected: exactly a repeated file name among the interfaces' own files *)
+Theorem rust_generate_rejects_iff stem mir :
+  rust_generate_gen true stem mir = None <-> nodup_str (rust_others stem mir) = false.
+Proof.
+  unfold rust_generate_gen. cbn [andb]. destruct (nodup_str (rust_others stem mir)); cbn [negb]; split; intro H; try reflexivity; discriminate.
+Qed.
